@@ -286,7 +286,55 @@ func (global *Ast) compilePipelineDecs() error {
 			errs = append(errs, err)
 		}
 	}
-	return errs.If()
+	if err := errs.If(); err != nil {
+		return err
+	}
+	return global.checkPipelineRecursion()
+}
+
+// Check that no pipeline calls itself by way of other pipelines.
+//
+// A pipeline calling itself directly is reported when its calls are
+// sorted.  A longer cycle is otherwise only noticed when one of its calls
+// has bindings to check, and expanding the call graph of one which is not
+// noticed never terminates.
+func (global *Ast) checkPipelineRecursion() error {
+	const (
+		visiting = 1
+		visited  = 2
+	)
+	state := make(map[*Pipeline]int, len(global.Pipelines))
+	var visit func(*Pipeline) error
+	visit = func(pipeline *Pipeline) error {
+		state[pipeline] = visiting
+		for _, call := range pipeline.Calls {
+			callee, ok := global.Callables.Table[call.DecId].(*Pipeline)
+			if !ok {
+				continue
+			}
+			switch state[callee] {
+			case visiting:
+				return global.err(call,
+					"RecursiveCallError: Pipeline %s calls itself by way of %s.",
+					callee.Id, pipeline.Id)
+			case visited:
+			default:
+				if err := visit(callee); err != nil {
+					return err
+				}
+			}
+		}
+		state[pipeline] = visited
+		return nil
+	}
+	for _, pipeline := range global.Pipelines {
+		if state[pipeline] == 0 {
+			if err := visit(pipeline); err != nil {
+				return err
+			}
+		}
+	}
+	return nil
 }
 
 // Check all pipeline input params are bound in a call statement.
